@@ -107,7 +107,7 @@ CHECKS = {
         design_ref="DESIGN.md 3/C12"),
     "C13": dict(
         technique="symbolic execution of real operation histories on a shared pool of symbolic objects + comparison with a fresh pool (syntactic term identity first, z3 otherwise); bounded history length",
-        category="other",
+        category="model_checking",
         text="Every ordered pair (thorough: triples on a reduced set) of 26 public operations (conversions, verdicts, projections, composition, tensor, copies, probability "
              "calculation, tomography construction, loss evaluation ...) on one shared composite system and object pool with symbolic parameters: after every step every pool object's "
              "parameters are unchanged, and afterwards every probe returns what it returns on a freshly built pool. Copies are independent of in-place overwrites of the original; Povm stores "
